@@ -1722,12 +1722,32 @@ def check_sat(constraints, timeout_s=20.0):
     cvc5_crosscheck(s, 'unsat')
     return 'unsat', None
   reason = s.reason_unknown()
+  # z3's non-linear search occasionally wanders off on a query it otherwise decides in a second or two: retry with other
+  # random seeds (short budget) before giving the query up
+  for sd in (11, 42, 7):
+    s2 = z3.Solver()
+    s2.set('timeout', int(min(timeout_s, 30.0) * 1000))
+    for k in ('random_seed', 'smt.random_seed'):
+      try:
+        s2.set(k, sd)
+      except z3.Z3Exception:
+        pass
+    s2.add(*cs)
+    r2 = s2.check()
+    RETRIES['tried'] += 1
+    if r2 == z3.sat:
+      RETRIES['decided'] += 1
+      return 'sat', s2.model()
+    if r2 == z3.unsat:
+      RETRIES['decided'] += 1
+      return 'unsat', None
   m = guided_model_search(cs)
   if m is not None:
     return 'sat', m
   return 'unknown', reason
 
 
+RETRIES = {'tried': 0, 'decided': 0}
 RICH_TRANS = [False]     # opt-in (C14): a goal that is not proved from the plain facts is re-decided with Ctx.rich added
 FALSIFY = {'tries': 10, 'timeout_ms': 4000, 'found': 0, 'attempts': 0, 'scale': Fraction(1), 'budget': 60}
 _CANDS = [Fraction(v) for v in (1, -1, 2, 0, 3, -2)] + [Fraction(1, 2), Fraction(-1, 2), Fraction(3, 2), Fraction(5)]
